@@ -1,4 +1,4 @@
-import TextxVerif.Proofs.RepoHistory
+import TextxVerif.Proofs.RepoTargets
 /-!
 # C17 — multi-file models load each file once and share element identity
 
@@ -270,6 +270,41 @@ theorem C17_history_next (g : Bool) (ops : List (Spec × Nat × Op)) (h : HistOK
     exact hok.lookupOrder m (by rw [base_next]; exact hge) hm
       (loadMain_loc S fuel st0 f hwf hl m hge (hok.lt m hm))
 
+/-- **A load never touches the recorded reference targets of a model that existed before**, whatever
+its outcome (`C17_identity` and `C17_lookup_order` describe the targets of the models a load constructs;
+this says they stay what they are). -/
+theorem C17_targets_untouched (S : Spec) (fuel : Nat) (st0 : St) (f : File) (hwf : WF st0) (i : Inst)
+    (hi : i < st0.next) : (loadMain S fuel st0 f).1.tgt i = st0.tgt i :=
+  loadMain_tgt_old S fuel st0 f (hwf.base S) i hi
+
+/-- **Single instance in every reachable state.**  After any history of loads from the empty state (any
+entry points, successful and failing loads mixed), in the dict the next load starts from: every file has
+one entry, which is a model of that file; and every element target recorded in any model of the dict —
+also the models cached by loads long ago — is an element of that model itself or of the model that is
+*the* entry of its file, and that element exists there.  So no reference of a cached model ever points
+to a second instance of a file or to a model removed by a failed load. -/
+theorem C17_history_identity (g : Bool) (ops : List (Spec × Nat × Op)) (h : HistOK g ops St.init)
+    (T : Spec) (hT : T.glob = g) (st : St) (hst : st = base T (runOps ops St.init)) :
+    ∀ f i, (f, i) ∈ st.all → st.fileOf i = f ∧ (∀ i', (f, i') ∈ st.all → i' = i) ∧
+      ∀ x n, Target.elem x n ∈ st.tgt i → (x = i ∨ (st.fileOf x, x) ∈ st.all) ∧ n ∈ st.defsOf x := by
+  have hwf : WF st := by rw [hst]; exact C17_history_wf g ops h T hT
+  have hT' : TgtOK st := by
+    rw [hst]
+    exact runOps_tgtOK g ops St.init (fun T _ => ⟨WF.init.base T, by
+      intro e he
+      have : (base T St.init).all = [] := by unfold base; split <;> rfl
+      rw [this] at he; cases he⟩) h T hT
+  intro f i hfi
+  refine ⟨hwf.file _ hfi, ?_, ?_⟩
+  · intro i' hi'
+    have h1 := Dict.get?_of_mem _ _ _ hwf.nodup hfi
+    have h2 := Dict.get?_of_mem _ _ _ hwf.nodup hi'
+    rw [h1] at h2
+    exact (Option.some.inj h2).symm
+  · intro x n ht
+    obtain ⟨h1, h2⟩ := hT' (f, i) hfi x n ht
+    exact ⟨h1, by simpa using h2⟩
+
 /-! ## non-vacuity: a cycle with a self-import, a diamond and shadowed names -/
 
 /-- file 0 imports 1 and 2; 1 imports 2 and 0 (cycle); 2 imports itself.
@@ -330,6 +365,9 @@ example : (runOps exH St.init).reads = [4, 3, 0, 2, 1] := by decide
 example : loadMain (exS true) 0 (runOps exH St.init) 2 = (runOps exH St.init, .ok, 1) :=
   (C17_cached_any (exS true) 0 _ 2 (C17_history_wf_glob exH
     ⟨rfl, by decide, rfl, by decide, rfl, by decide, rfl, by decide, rfl, by decide, trivial⟩) rfl (by decide) rfl).1
+-- the targets recorded for the model without file name (instance 3) and for file 0 (instance 2) in that state
+example : (runOps exH St.init).tgt 3 = [.elem 2 5, .elem 0 6, .elem 3 7] := by decide
+example : (runOps exH St.init).tgt 2 = [.elem 2 5, .elem 0 7, .elem 1 8, .builtin 0 9] := by decide
 example : WF St.init := ⟨by simp [St.init, Dict.keys], by simp [St.init], by simp [St.init], by simp [St.init],
   by simp [St.init]⟩
 
